@@ -91,3 +91,9 @@ check('C16', 'exploration', 'grammar-based property testing with an independent 
       'context-id arguments, the snapshot\'s log message and its LOG watch results (one per field, in order); arbitrary '
       'brace/punctuation text is additionally thrown at the agent with the weaker "no exception, at most one message" oracle.',
       'Expressions avoid format-reserved characters; values in fields have a working str().')
+check('C17', 'exploration', 'exhaustive enumeration of the type x expression x label x processor-count table + property-based metric lists, reference computation in the frame',
+      'Metric definitions through the code route and the protobuf route; expected calls are computed from the definitions '
+      'and the oracle\'s own eval in the paused frame: per permitted hit, per metric, per processor exactly one call of the '
+      'operation named by the type with name, labels, namespace (default deep), help, unit and value (float(expr) or 1); '
+      'with zero processors nothing is reported and the fire budget stays untouched.',
+      'Recording processors are the observation point (real Prometheus/OTel back-ends are out of scope).')
